@@ -36,6 +36,8 @@ pub fn is_unchecked_access_assert(msg: &str) -> bool {
             && (msg.contains("idx <") || msg.contains(">= index") || msg.contains("index +")))
 }
 
+pub static MINIMAL_ILL: std::sync::atomic::AtomicBool = std::sync::atomic::AtomicBool::new(false);
+
 pub struct ShapeCfg {
     pub prop: String,
     pub lengths: Vec<usize>,
@@ -612,6 +614,14 @@ pub fn c03_fft<T: Elem>(st: &mut Stats, prop: &str, case_base: &str, fft: &Arc<d
         }
         if light && !(sc.data_len == n || sc.data_len == n + 1 || (n > 1 && sc.data_len == 2 * n - 1)) {
             continue;
+        }
+        if MINIMAL_ILL.load(std::sync::atomic::Ordering::Relaxed) {
+            // (Miri, quick tier) one ill-shaped call per reason and entry point
+            let keep = (sc.data_len == n + 1 && sc.out_len == sc.data_len && sc.scratch_len == sc.entry.adv_scratch(&**fft))
+                || (sc.data_len == n && (sc.out_len == n + 1 || sc.scratch_len + 1 == sc.entry.adv_scratch(&**fft)));
+            if !keep {
+                continue;
+            }
         }
         let data = inputs::gen::<T>(InClass::Uniform, sc.data_len, rng);
         let shape = CallShape {
